@@ -43,6 +43,12 @@ Proof.
 Qed.
 Print Assumptions parse_print_parse.
 
+(* exactly the printed forms, followed by any number of slashes, are accepted *)
+Theorem parse_accepts_iff : forall s p,
+  parse s = Ok p <-> exists t, s = to_str p ++ repeat 47 t /\ Forall elem_ok p.
+Proof. exact Lemmas.SubstratePath.parse_accepts_iff. Qed.
+Print Assumptions parse_accepts_iff.
+
 Theorem parse_rejects_with_path_error : forall s e, parse s = Err e -> e = LibError SubstratePathError.
 Proof. exact Lemmas.SubstratePath.parse_err. Qed.
 Print Assumptions parse_rejects_with_path_error.
